@@ -446,3 +446,20 @@ M('recv-entry-min-instead-of-max', ['C01'], Z, "else max(state.msg_id, self.prev
 M('mask-D11-shape-user-nonempty', ['C15'], UTL, "re_sub_uri_user_and_pwd = re.compile(r'\\b ( [a-zA-Z][a-zA-Z0-9+\\-.]* :// ) [^:@]*:", "re_sub_uri_user_and_pwd = re.compile(r'\\b ( [a-zA-Z][a-zA-Z0-9+\\-.]* :// ) [^:@]+:", ['C15.R3'])
 M('mask-pwd-bounded-length', ['C15'], UTL, ":// [^:@]*: ) [^@]* ( @ [^\\s/?#]+ )', re.VERBOSE)", ":// [^:@]*: ) [^@]{1,64} ( @ [^\\s/?#]+ )', re.VERBOSE)", ['C15.R3'])
 M('imagein-D12-shape', ['C15'], II, "hide_uri_users_and_pwds('file://' + path)", "hide_uri_users_and_pwds(path)", ['C15.R1'])
+M('seed3-C02-topic-rename-cascades', ['C02'], Z, """                    for topic, frame in (recvd.items() if (recvd := sender.recvd) is not None else ()):
+                        if frame is not None:
+                            if (topic := topic_map.get(topic, topic)) in data:
+                                raise RuntimeError(f'duplicate topic {topic!r} from: {sender.server_id}  @ {sender.addr}')
+
+                            data[topic] = frame
+""", """                    frames = {topic: frame for topic, frame in (sender.recvd or {}).items() if frame is not None}
+
+                    for src, dst in topic_map.items():
+                        if src in frames:
+                            frames[dst] = frames.pop(src)
+
+                    if dup := data.keys() & frames.keys():
+                        raise RuntimeError(f'duplicate topic {min(dup)!r} from: {sender.server_id}  @ {sender.addr}')
+
+                    data.update(frames)
+""", ['C02.R4'])
